@@ -16,6 +16,10 @@
 
 namespace verif {
 
+// budget of spurious compare_exchange_weak failures per run (declared in vshim.hpp, used by verif::atomic<T>::cas)
+int g_casfail_left = 0;
+int g_latewake_left = 0;
+
 namespace {
 struct LThread {
     std::thread th;
@@ -26,6 +30,11 @@ struct LThread {
     int go_class = EN;
     bool yielded = false;
     int prio = 0;
+    int gate_count = 0;    // gate_at: scheduling points left until the gate applies
+    Enabled gate_until;
+    int gate2_count = 0;   // gate_also: a second, independent gate
+    Enabled gate2_until;
+    bool gated = false;    // parked at the scheduling point the gate applies to
     std::condition_variable cv;
 };
 
@@ -262,12 +271,28 @@ int sched(const Enabled& en)
     }
     std::unique_lock<std::mutex> lk(S.G);
     auto& me = *S.th[t_self];
-    me.en = en;
+    bool hit1 = me.gate_count > 0 && --me.gate_count == 0 && me.gate_until;
+    bool hit2 = me.gate2_count > 0 && --me.gate2_count == 0 && me.gate2_until;   // second gate (gate_also)
+    if (hit1 || hit2) {
+        // directed path forcing: this scheduling point is additionally blocked until the gate opens
+        Enabled g = hit1 ? me.gate_until : me.gate2_until;
+        if (hit1) {
+            me.gate_until = nullptr;
+        } else {
+            me.gate2_until = nullptr;
+        }
+        Enabled e0 = en;
+        me.en = [g, e0] { return g() != 0 ? e0() : int(DIS); };
+        me.gated = true;
+    } else {
+        me.en = en;
+    }
     me.parked = true;
     me.go = false;
     hand_off(lk, t_self, false);
     me.parked = false;
     me.go = false;
+    me.gated = false;
     // a thread that moves un-yields the others
     for (size_t i = 1; i < S.th.size(); ++i) {
         if (int(i) != t_self) {
@@ -275,6 +300,26 @@ int sched(const Enabled& en)
         }
     }
     return me.go_class;
+}
+
+void gate_at(int k, const Enabled& until)
+{
+    if (S.running && t_self != 0 && k > 0) {
+        S.th[t_self]->gate_count = k;
+        S.th[t_self]->gate_until = until;
+    }
+}
+
+void gate_also(int k, const Enabled& until)
+{
+    if (S.running && t_self != 0) {
+        S.th[t_self]->gate2_count = k;
+        S.th[t_self]->gate2_until = until;
+    }
+}
+bool at_gate(int tid)
+{
+    return S.running && tid > 0 && size_t(tid) < S.th.size() && S.th[size_t(tid)]->gated;
 }
 
 void mark_yield()
@@ -311,6 +356,24 @@ static thread_local int t_in_tap = 0;
 // the same thread's next event (by then the store instruction has executed)
 static thread_local void* t_pend_addr = nullptr;
 static thread_local unsigned t_pend_size = 0;
+// opt-in (tap_opts): print 8-byte values as canonical names (pointers into registered objects, "null", "?k") instead
+// of raw numbers; make every tapped access a scheduling point (taken BEFORE the access executes)
+static bool g_tap_names = false;
+static bool g_tap_sched = false;
+void tap_opts(bool value_names, bool sched_points)
+{
+    g_tap_names = value_names;
+    g_tap_sched = sched_points;
+}
+static std::string tap_value(const void* a, unsigned size)
+{
+    uint64_t v = 0;
+    memcpy(&v, a, size);
+    if (g_tap_names && size == 8) {
+        return name_of(reinterpret_cast<const void*>(static_cast<uintptr_t>(v)));
+    }
+    return std::to_string(static_cast<long long>(v));
+}
 
 void tap_add(const void* p, size_t n)
 {
@@ -334,6 +397,8 @@ void tap_clear()
 {
     g_nranges = 0;
     g_tap_on = false;
+    g_tap_names = false;
+    g_tap_sched = false;
 }
 
 static void flush_pending_store()
@@ -346,9 +411,7 @@ static void flush_pending_store()
     t_pend_addr = nullptr;
     std::string line = "pst " + name_of(a) + " " + std::to_string(size);
     if (size <= 8) {
-        uint64_t v = 0;
-        memcpy(&v, a, size);
-        line += " " + std::to_string(static_cast<long long>(v));
+        line += " " + tap_value(a, size);
     }
     S.res.trace.push_back(std::to_string(t_self) + " " + line);
 }
@@ -363,15 +426,16 @@ void tap_access(void* a, unsigned size, bool write)
         if (x >= g_ranges[i].lo && x < g_ranges[i].hi) {
             ++t_in_tap;
             flush_pending_store();
+            if (g_tap_sched) {
+                sched();
+            }
             if (write) {
                 t_pend_addr = a;
                 t_pend_size = size;
             } else {
                 std::string line = "pld " + name_of(a) + " " + std::to_string(size);
                 if (size <= 8) {
-                    uint64_t v = 0;
-                    memcpy(&v, a, size);
-                    line += " " + std::to_string(static_cast<long long>(v));
+                    line += " " + tap_value(a, size);
                 }
                 S.res.trace.push_back(std::to_string(t_self) + " " + line);
             }
@@ -477,6 +541,8 @@ void begin(const Config& cfg)
     }
     S.replay_pos = 0;
     S.spurious_left = cfg.spurious_budget;
+    g_casfail_left = cfg.casfail_budget;
+    g_latewake_left = cfg.latewake_budget;
     S.names.clear();
     S.ranges.clear();
     S.autoseq.clear();
